@@ -5,4 +5,5 @@ export GOFLAGS=-mod=mod GOPROXY=off GOSUMDB=off GOTOOLCHAIN=local
 cd /verif/harness
 mkdir -p /verif/.bin /verif/evidence
 go1.26.8 build -tags verif -o /verif/.bin/verifx ./cmd/verifx
+go1.26.8 test -tags verif -c -o /verif/.bin/c11.test ./checks/c11/
 echo "setup ok"
